@@ -8,6 +8,15 @@ import math
 def norm(v):
   """Canonical, hashable form of an encoded cell. bool only equals bool; numbers compare by
   value (1 ~ 1.0); NaN ~ NaN; error cells compare by class name only."""
+  try:
+    return _norm(v)
+  except RecursionError:
+    # Very deep nesting (it did travel through marshal, so marshal can serialise it).
+    import marshal
+    return ("deep", marshal.dumps(v, 2))
+
+
+def _norm(v):
   if v is None:
     return None
   if v is True or v is False:
@@ -28,9 +37,9 @@ def norm(v):
   if t is list or t is tuple:
     if v and v[0] == "E" and isinstance(v[0], str):
       return ("E", v[1] if len(v) > 1 else None)
-    return ("L",) + tuple(norm(x) for x in v)
+    return ("L",) + tuple(_norm(x) for x in v)
   if t is dict:
-    return ("D",) + tuple(sorted(((norm(k), norm(x)) for k, x in v.items()), key=repr))
+    return ("D",) + tuple(sorted(((_norm(k), _norm(x)) for k, x in v.items()), key=repr))
   if t is bytes:
     return ("bytes", v)
   return ("?", repr(v))
